@@ -205,8 +205,13 @@ class KObj(Kind):
     def sort(self):
         k = ("obj", self.cls, tuple(self.fields.items()))
         if k not in _SORT_CACHE:
-            d = z3.Datatype("Obj_" + self.cls)
-            d.declare("mk_Obj_" + self.cls, *[(f"{self.cls}_{n}", fk.sort()) for n, fk in self.fields.items()])
+            # two record kinds of the same class name but different field sets (different sidecars) must
+            # not collide in one SMT script: the datatype name carries a digest of the field list
+            import hashlib
+
+            tag = self.cls + "_" + hashlib.sha1(repr(sorted((n, repr(fk)) for n, fk in self.fields.items())).encode()).hexdigest()[:6]
+            d = z3.Datatype("Obj_" + tag)
+            d.declare("mk_Obj_" + tag, *[(f"{tag}_{n}", fk.sort()) for n, fk in self.fields.items()])
             _SORT_CACHE[k] = d.create()
         return _SORT_CACHE[k]
 
